@@ -166,6 +166,9 @@ def setup(c):
     reach.watch(c, {'LEVINSON': spectrum.levinson.LEVINSON, 'HERMTOEP': spectrum.toeplitz.HERMTOEP,
                     'TOEPLITZ': spectrum.toeplitz.TOEPLITZ, 'CHOLESKY': spectrum.cholesky.CHOLESKY})
     install.contract('spectrum.levinson', 'LEVINSON', post_LEVINSON)
+    reach.cover(c, {'LEVINSON': install.original('spectrum.levinson', 'LEVINSON'),
+                    'TOEPLITZ': install.original('spectrum.toeplitz', 'TOEPLITZ'),
+                    'HERMTOEP': install.original('spectrum.toeplitz', 'HERMTOEP')})
     install.contract('spectrum.toeplitz', 'HERMTOEP', post_HERMTOEP)
     install.contract('spectrum.toeplitz', 'TOEPLITZ', post_TOEPLITZ)
     install.contract('spectrum.cholesky', 'CHOLESKY', post_CHOLESKY)
